@@ -7,7 +7,7 @@ From Coq Require Import ZArith NArith List.
 From Coq Require Import Lia.
 From MTV Require Import Base.Bytes Base.Outcome TL.Types TL.Codec TL.Typing TL.TLText TL.Match TL.Spec
   TL.RoundTrip TL.SpecProofs TL.NPPost Crypto.Envelope Crypto.EnvelopeProofs Props.C03
-  Transport.Framing Transport.FramingProofs Transport.TrDelivery.
+  Transport.Framing Transport.FramingProofs Transport.TrDelivery Props.C08.
 Import ListNotations.
 Open Scope N_scope.
 
@@ -145,3 +145,64 @@ Example response_ok_instance : pseudo_ok cxU = true /\ response_ok cxU cx_resp.
 Proof. split; [vm_compute; reflexivity|]. unfold response_ok, cx_resp. cbn [r_salt r_sid r_msgid r_seq r_pad r_tid r_fs r_body].
   repeat split; vm_compute; reflexivity. Qed.
 Print Assumptions response_ok_instance.
+
+(* ---------------------------------------------------------------------------------------------
+   The request of the first theorem, now ON THE WIRE: the client's transport frames the sealed packet in
+   the connection's mode behind whatever it has framed before ([pre]: the three plain messages of the
+   key exchange, earlier requests, acknowledgements) and TCP delivers the byte stream to the server in ANY
+   segmentation.  Then the server's reader recognises the mode and returns exactly those frames, the last
+   of which is the packet (C08 model); it opens to the fields and the body that went in (C03 model); the
+   body is the schema's serialisation of the value and decodes to it (C02 / C01 model).
+   Bodies below 2^25 bytes (what the abridged length field can carry once sealed). *)
+Lemma sealed_request_carriable v (pkt body : bytes) :
+  length pkt = (24 + 32 + length body + pad_amount (32 + length body))%nat ->
+  N.of_nat (length body) < 2 ^ 25 -> carriable v pkt.
+Proof.
+  intros HL Hb. change (2 ^ 25) with 33554432 in Hb.
+  pose proof (pad_amount_lt (32 + length body)) as Hp.
+  pose proof (pad_amount_aligned (32 + length body)) as Ha.
+  assert (H16 : exists q, (32 + length body + pad_amount (32 + length body) = 16 * q)%nat).
+  { exists ((32 + length body + pad_amount (32 + length body)) / 16)%nat.
+    pose proof (PeanoNat.Nat.div_mod (32 + length body + pad_amount (32 + length body)) 16 ltac:(lia)). lia. }
+  destruct H16 as [q Hq].
+  destruct v; cbn [carriable]; unfold blen; rewrite HL.
+  - replace (24 + 32 + length body + pad_amount (32 + length body))%nat with (4 * (4 * q + 6))%nat by lia.
+    rewrite Nat2N.inj_mul. change (N.of_nat 4) with 4.
+    rewrite N.mul_comm, N.mod_mul by lia. rewrite N.div_mul by lia. split; [reflexivity|lia].
+  - lia.
+Qed.
+Print Assumptions sealed_request_carriable.
+
+Theorem request_crosses_the_wire :
+  forall (U : universe) (S : list comb) tbl inflate sha1 ige_e ige_d,
+  pseudo_ok U = true ->
+  sha1_20 sha1 -> ige_keeps_length ige_e -> ige_inverts ige_e ige_d ->
+  forall tid fs body key salt sid msgid seq ack,
+  all_in_schema U S tbl (VObj tid fs) = true ->
+  wt U (TIface 0) (VObj tid fs) = true ->
+  enc U (VObj tid fs) = Ok body ->
+  (128 <= length key)%nat -> salt < 2 ^ 64 -> sid < 2 ^ 64 -> msgid < 2 ^ 64 -> seq < 2 ^ 32 ->
+  N.of_nat (length body) < 2 ^ 25 ->
+  exists pkt,
+    seal_client sha1 ige_e key salt sid msgid seq ack body = Ok pkt /\
+    (* whatever was framed before it, however TCP cuts the stream: the server's reader returns the frames, *)
+    (forall v pre chunks, Forall (carriable v) pre -> concat chunks = wire v (pre ++ [pkt]) ->
+       read_stream chunks = Some {| d_mode := Some v; d_msgs := pre ++ [pkt]; d_end := EEof |}) /\
+    (* the last one opens to what went in, *)
+    open_server sha1 ige_d key pkt = Some (salt, sid, msgid, seq_ack seq ack, body) /\
+    (* which is the schema's serialisation of the value and decodes to it *)
+    spec S (abs U (VObj tid fs)) = Some body /\
+    exists f0, forall f, (f0 <= f)%nat -> decode_unknown U inflate f [] body = DOk (norm U (VObj tid fs)).
+Proof.
+  intros U S tbl inflate sha1 ige_e ige_d Hp H1 H2 H3 tid fs body key salt sid msgid seq ack Hs Hw He Hk Hsalt Hsid Hmid Hseq Hb.
+  assert (Hb31 : N.of_nat (length body) < 2 ^ 31) by (eapply N.lt_trans; [exact Hb|reflexivity]).
+  destruct (C03_server_opens_client sha1 ige_e ige_d H1 H2 H3 key salt sid msgid seq ack body Hk Hsalt Hsid Hmid Hseq Hb31)
+    as [pkt [Hseal [Hopen [HL _]]]].
+  exists pkt. split; [exact Hseal|]. split.
+  - intros v pre chunks Hpre Hc. apply C08_delivery; [|exact Hc].
+    apply Forall_app. split; [exact Hpre|]. constructor; [|constructor].
+    exact (sealed_request_carriable v pkt body HL Hb).
+  - split; [exact Hopen|]. split; [exact (encode_is_spec U S tbl (VObj tid fs) body Hs He)|].
+    exact (roundtrip_unknown U inflate Hp tid fs body Hw He).
+Qed.
+Print Assumptions request_crosses_the_wire.
